@@ -267,15 +267,21 @@ func AssembleFile(ctx context.Context, name string, idx Index, s Store, seeds []
 	pb.Start()
 	defer pb.Finish()
 
+	var interrupted bool
 loop:
 	for _, segment := range plan {
 		select {
 		case <-ctx.Done():
+			interrupted = true
 			break loop
 		case in <- Job{segment.indexSegment, segment.source}:
 		}
 	}
 	close(in)
 
-	return stats, g.Wait()
+	err = g.Wait()
+	if err == nil && interrupted {
+		err = Interrupted{}
+	}
+	return stats, err
 }
